@@ -91,7 +91,7 @@ def pinnedArgSkeleton : List (String × String) := [
   ("Root.formArgs", "4ce1628b3fc4"),
   ("Root.formReflectArgs", "d5fdfd091c17"),
   ("Root.replaceArgVars", "8e6170986780"),
-  ("Root.resolveField", "f0c7e214a165"),
+  ("Root.resolveField", "d8dcc1486960"),
   ("Root.resolveReflect", "3ca8b8cb64d4"),
   ("checkReflectArgs", "2fe173b3f604")
 ]
